@@ -201,7 +201,11 @@ impl Monitor for Mon {
         }
         let region = w.env.borrow().cfg.region;
         let keys = w.dut.session_keys();
-        if keys != self.cur_keys {
+        // a join the reference saw completed starts a new session even when its keys coincide with the old ones
+        // (two DevNonces alike after an RNG streak, the recorded JoinAccept sent again)
+        let joined_anew = matches!(rec.op, Op::Join(_))
+            && w.env.borrow().delivered[rec.del_lo..rec.del_hi].iter().any(|d| matches!(d.verdict, crate::world::Verdict::JoinAccept(_)));
+        if keys != self.cur_keys || joined_anew {
             self.cur_keys = keys;
             self.pending = None;
             self.sticky = None;
